@@ -3,10 +3,13 @@ package c10
 import (
 	"fmt"
 	"math/big"
+	"strings"
 
 	"cosmossdk.io/collections"
 	"github.com/cockroachdb/apd/v3"
 	sdk "github.com/cosmos/cosmos-sdk/types"
+
+	sctypes "github.com/sunriselayer/sunrise/x/shareclass/types"
 
 	"verifharness/emit"
 )
@@ -59,6 +62,7 @@ type dcell struct {
 	S     []*big.Int
 	M     []dec
 	Chk   [][]dec
+	Alias *big.Int // supply of the share denom built from the upper-case spelling of the address
 }
 
 type qrow struct {
@@ -108,8 +112,8 @@ func (c dcell) coq() string {
 			}
 		}
 	}
-	return fmt.Sprintf("(mkD %s %s %s %s %s %d %s %s %s)", emit.Z(c.T), zlist(c.Sh), emit.Z(c.ModSh), b,
-		emit.Bool(c.SD), c.Ent, zlist(c.S), declist(c.M), emit.List(chk))
+	return fmt.Sprintf("(mkD %s %s %s %s %s %d %s %s %s %s)", emit.Z(c.T), zlist(c.Sh), emit.Z(c.ModSh), b,
+		emit.Bool(c.SD), c.Ent, zlist(c.S), declist(c.M), emit.List(chk), emit.Z(c.Alias))
 }
 
 var (
@@ -171,6 +175,7 @@ func (w *world) dump(ctx sdk.Context) dstate {
 			c.Sh = append(c.Sh, h.Bal(ctx, a.Addr, w.shares[v]).BigInt())
 		}
 		c.ModSh = h.Bal(ctx, w.mod, w.shares[v]).BigInt()
+		c.Alias = h.Supply(ctx, sctypes.NonVotingShareTokenDenom(strings.ToUpper(w.vals[v]))).BigInt()
 		if b := w.delegated(ctx, v); b != nil {
 			c.B = b.BigInt()
 		}
